@@ -674,14 +674,55 @@ def case_slicechain(ctx, inp):
                 ctx.fail(f"chained slices: a block computed via {how} is not the slice of the result at its index", observed=list(idx))
                 return
     # was the chain really fused into one getitem per block?
-    from dask.array.optimization import optimize
+    # … and what does _optimize_slices REALLY pass to fuse_slice? (the domain of the tuple model: integers, slices, None;
+    # full-length tuples — the hypothesis of fuse_tuple_no_index_error)
+    import dask.array.optimization as O
     from dask.core import flatten
+    calls = []
+    real_fuse = O.fuse_slice
+
+    def spy(a, b):
+        top = isinstance(a, tuple) and isinstance(b, tuple)     # (the entry-level recursive calls are not recorded)
+        res = None
+        try:
+            res = real_fuse(a, b)
+        except NotImplementedError:
+            res = "notimpl"
+            raise
+        except IndexError:
+            res = "indexerr"
+            raise
+        finally:
+            if top and res is not None:
+                calls.append((a, b, res))
+        return res
+    O.fuse_slice = spy
     try:
-        opt = optimize(r.__dask_graph__(), list(flatten(r.__dask_keys__())))
+        opt = O.optimize(r.__dask_graph__(), list(flatten(r.__dask_keys__())))
         if len(dict(opt)) <= max(1, len(grid)) * 2:
             ctx.branch("getitems-fused")
-    except Exception:
-        pass
+    except Exception as e:
+        ctx.fail("optimize raised on a chain of getitems: " + type(e).__name__ + ": " + str(e)[:120])
+    finally:
+        O.fuse_slice = real_fuse
+    seen = set()
+    for a, b, res in calls:
+        key = repr((a, b))
+        if key in seen or len(seen) >= 6:
+            continue
+        seen.add(key)
+        if not all(i is None or isinstance(i, (int, slice)) for i in a + b):
+            ctx.fail("_optimize_slices passes an index that is not an integer, a slice or None to fuse_slice",
+                     observed=[repr(a), repr(b)])
+            continue
+        m = ctx.lean(Sym("fusetupleargs"), [_ix_of_real(v) for v in a], [_ix_of_real(v) for v in b])
+        ctx.eq("fuse_tuple_no_index_error: b indexes at least as many axes as a leaves (real arguments)", m[1], True)
+        ctx.eq("fuse_slice on the arguments _optimize_slices passes",
+               m[0] if isinstance(m[0], list) else str(m[0]),
+               [_ix_of_real(v) for v in res] if isinstance(res, tuple) else res)
+        ctx.branch("optimize-slices-call-" + ("fused" if isinstance(res, tuple) else str(res)))
+        if any(i is None for i in a + b):
+            ctx.branch("optimize-slices-call-with-newaxis")
     if any(isinstance(i, list) and (i[2] or 1) > 1 and i[1] is not None for idx in inp["chain"][1:] for i in idx):
         ctx.branch("later-slice-step>1-with-explicit-stop")
     if any(isinstance(i, int) for idx in inp["chain"] for i in idx):
